@@ -17,6 +17,7 @@ pub mod c04;
 pub mod c06;
 pub mod c07;
 pub mod c08;
+pub mod c08x;
 pub mod c13e;
 
-pub const TABLES: &[&[(&str, fn())]] = &[c01::TABLE, c02::TABLE, c13e::TABLE, c04::TABLE, c06::TABLE, c07::TABLE, c08::TABLE];
+pub const TABLES: &[&[(&str, fn())]] = &[c01::TABLE, c02::TABLE, c13e::TABLE, c04::TABLE, c06::TABLE, c07::TABLE, c08::TABLE, c08x::TABLE];
